@@ -44,7 +44,7 @@ def load_ledger():
         return {}
 
 
-def canary_edits(unit):
+def canary_edits(unit, loops=True):
     """assert(false) at the start of every function body and every loop body of every extracted item: each must FAIL,
     showing that no precondition / invariant set is contradictory and that the bodies are really being checked."""
     extra, n = {}, 0
@@ -61,7 +61,7 @@ def canary_edits(unit):
         for fn in names:
             eds.append(rsx.ins(rsx.A.body_start(fn=fn), ' proof { assert(false); /*canary %s.%s*/ } ' % (it.name, fn), tag='canary'))
             n += 1
-        if names:
+        if names and loops:
             outer = names[0]
             try:
                 for k in range(rsx.n_loops(pinned, outer)):
@@ -131,7 +131,12 @@ def run_unit(unit, workdir, tier, ledger, seed):
     extra, n = canary_edits(unit)
     if n:
         try:
-            ctext, _ = vunit.build(unit, extra_edits=extra)
+            try:
+                ctext, _ = vunit.build(unit, extra_edits=extra)
+            except Undecided:
+                # a loop that is outlined as a whole cannot take a canary: guard the function bodies only
+                extra, n = canary_edits(unit, loops=False)
+                ctext, _ = vunit.build(unit, extra_edits=extra)
             cpath = os.path.join(workdir, unit.name + '_canary.rs')
             with open(cpath, 'w', encoding='utf-8') as f:
                 f.write(ctext)
